@@ -111,6 +111,19 @@ func init() {
 		},
 	})
 	register(&Prop{
+		ID:          "C12",
+		HarnessDirs: []string{"c12"},
+		Pkg:         "github.com/cloudwego/thriftgo/generator",
+		Diff:        []string{"D_C12_1"},
+		Functions:   []string{"generator.(*FileManager).Feed", "generator.(*FileManager).BuildResponse", "generator.insertionPointReplacer (newInsertionPointReplacer/Add/Replace)", "plugin.InsertionPoint", "strings.NewReplacer(...).Replace (generic replacer, interpreted)"},
+		Bounds:      "histories of 3 submissions (every combination of named file / named patch / unnamed patch) in one Feed call or split into two at every position; names are free choices among {a.go, b.go, c}; a separate harness feeds 2..3 (thorough 4) plain files named from {a.go, a_1.go, a_2.go}, contents among 3 texts with 0/1/3 markers, points among {p,q,r (absent)}; patch texts contain a FREE byte",
+		Assumptions: []string{"the marker scan is a regexp call-out executed by the host on concrete file contents (contents are choices, not free bytes)", "persisting the response to disk is C19's subject"},
+		Harnesses: []Harness{
+			{Func: "H_C12_assemble", Quick: c12Tuples(true), Thorough: c12Tuples(false), Covers: []string{"assembled", "error"}},
+			{Func: "H_C12_collision", Quick: rng(2, 3), Thorough: rng(2, 4), Covers: []string{"end"}},
+		},
+	})
+	register(&Prop{
 		ID:          "C14",
 		HarnessDirs: []string{"c14"},
 		Pkg:         "github.com/cloudwego/thriftgo/fieldmask",
@@ -191,6 +204,23 @@ func commentTuples(maxN int64) [][]int64 {
 	for hole := int64(1); hole <= 195; hole++ {
 		for style := int64(0); style < 3; style++ {
 			r = append(r, []int64{hole, style, maxN})
+		}
+	}
+	return r
+}
+
+func c12Tuples(quick bool) [][]int64 {
+	var r [][]int64
+	for k0 := int64(0); k0 < 3; k0++ {
+		for k1 := int64(0); k1 < 3; k1++ {
+			for k2 := int64(0); k2 < 3; k2++ {
+				for split := int64(1); split <= 3; split++ {
+					if quick && split == 1 && k0 != 0 {
+						continue
+					}
+					r = append(r, []int64{k0, k1, k2, split})
+				}
+			}
 		}
 	}
 	return r
